@@ -22,7 +22,7 @@ ASSUMPTIONS = [
     "NaN limits cannot yield 0 <= min_volume < max_volume, so an accepted object would be inconsistent: must-reject with any exception type",
     "undetermined (either): bool sizes, max_volume = inf, 2-D initial volumes of another shape with the right size, 2-D initial volumes for Trough()",
 ]
-BUDGET = {"quick": (4, 500), "thorough": (16, 8000)}
+BUDGET = {"quick": (4, 1000), "thorough": (16, 8000)}
 KNOWN_KINDS = {}
 STRATA = ["valid", "one-invalid", "mixed"]
 REQUIRED_CLASSES = ["accepted", "rejected", "ctor:Labware", "ctor:LabwareV", "ctor:Trough", "init:scalar", "init:flat", "init:2d", "init:percol", "named"]
